@@ -61,6 +61,7 @@ type report struct {
 	Sites            []site   `json:"sites"`
 	MapRangeAt       []string `json:"map_range_at"`
 	GoAt             []string `json:"go_at"`
+	WallClock        []string `json:"wall_clock_timers"` // uses of time.After/NewTimer/NewTicker/Tick/AfterFunc in the code under test
 }
 
 func die(format string, a ...interface{}) {
@@ -232,6 +233,18 @@ func rewriteFile(pkg *packages.Package, f *ast.File, fn, rel string, wantP bool,
 	ast.Inspect(f, func(n ast.Node) bool {
 		if l, ok := n.(*ast.LabeledStmt); ok {
 			labeled[l.Stmt] = true
+		}
+		// wall-clock waiting is not simulated (the code under test has none): report it, the driver refuses to judge
+		if se, ok := n.(*ast.SelectorExpr); ok {
+			if id, ok := se.X.(*ast.Ident); ok {
+				if pn, ok := pkg.TypesInfo.Uses[id].(*types.PkgName); ok && pn.Imported().Path() == "time" {
+					switch se.Sel.Name {
+					case "After", "NewTimer", "NewTicker", "Tick", "AfterFunc": // (a plain time.Sleep is handled: the sleeper counts as blocked outside the simulator)
+						pp := fset.Position(se.Pos())
+						rep.WallClock = append(rep.WallClock, fmt.Sprintf("%s:%d time.%s", rel, pp.Line, se.Sel.Name))
+					}
+				}
+			}
 		}
 		return true
 	})
